@@ -197,6 +197,89 @@ def _table_stores(tree: Tree, reach: set[str], table: str) -> tuple[list[tuple[F
     return stores, unread
 
 
+def _site_guards(fn: FuncInfo, call: ast.AST) -> list[ast.AST]:
+    """The tests that decide whether ``call`` is executed once ``fn`` runs: enclosing if / while / conditional
+    expression / short-circuit operand / exception handler, and every `return` that an earlier statement of an
+    enclosing block can take (its own guards).  Loops over collections and `with` blocks are not guards."""
+    from ..loader import parent
+
+    guards: list[ast.AST] = []
+    node: ast.AST = call
+    while node is not fn.node:
+        p = parent(node)
+        if p is None:
+            break
+        if isinstance(p, (ast.If, ast.While)) and node is not p.test:
+            guards.append(p.test)
+        elif isinstance(p, ast.IfExp) and node is not p.test:
+            guards.append(p.test)
+        elif isinstance(p, ast.BoolOp) and p.values and node is not p.values[0]:
+            guards.append(p.values[0])
+        elif isinstance(p, ast.ExceptHandler):
+            guards.append(p.type or p)
+        elif isinstance(p, ast.comprehension) and node in p.ifs:
+            pass
+        elif isinstance(p, (ast.ListComp, ast.SetComp, ast.GeneratorExp, ast.DictComp)):
+            for g in p.generators:
+                guards.extend(g.ifs)
+        elif isinstance(p, ast.match_case):
+            guards.append(p.pattern)
+        # earlier statements of the same block that may leave the function
+        for field in ("body", "orelse", "finalbody"):
+            block = getattr(p, field, None)
+            if isinstance(block, list) and node in block:
+                for earlier in block[: block.index(node)]:
+                    for r in ast.walk(earlier):
+                        if isinstance(r, ast.Return):
+                            inner = [t for t in _enclosing_tests(r, earlier)]
+                            guards.extend(inner or [r])
+        node = p
+    return guards
+
+
+def _enclosing_tests(node: ast.AST, stop: ast.AST) -> list[ast.AST]:
+    from ..loader import parent
+
+    out = []
+    while node is not stop:
+        p = parent(node)
+        if p is None:
+            break
+        if isinstance(p, (ast.If, ast.While)) and node is not p.test:
+            out.append(p.test)
+        node = p
+    if isinstance(stop, (ast.If, ast.While)) and not out:
+        out.append(stop.test)
+    return out
+
+
+def _completion_is_unconditional(tree: Tree, graph: dict, target: str) -> tuple[bool, list[tuple[FuncInfo, ast.Call, list[ast.AST]]]]:
+    """Is ``target`` executed whenever FORMULATE runs to its return?  Walks the call graph from FORMULATE over call
+    sites that carry no guard; returns (True, []) if the target is reached that way, otherwise the guarded call sites
+    on the way to it (the first guarded hop of every chain)."""
+    reach_target = {q for q in graph if target in tree.reachable(q, graph)} | {target}
+    must: set[str] = set()
+    todo = [FORMULATE]
+    blocked: list[tuple[FuncInfo, ast.Call, list[ast.AST]]] = []
+    while todo:
+        q = todo.pop()
+        if q in must:
+            continue
+        must.add(q)
+        fn = tree.funcs.get(q)
+        if fn is None:
+            continue
+        for call, callee in tree.calls_in(fn, nested=False):
+            if callee is None or callee not in reach_target:
+                continue
+            guards = _site_guards(fn, call)
+            if guards:
+                blocked.append((fn, call, guards))
+            else:
+                todo.append(callee)
+    return target in must, blocked
+
+
 def check_domain(ctx: Check, tree: Tree) -> None:
     # local aliases of attribute paths (`amplitudes = self.__ingredients.amplitudes`) are looked through (H-ALIAS)
     table = unparse(_model_argument(tree, "amplitudes"))  # self.__ingredients.amplitudes
@@ -241,6 +324,29 @@ def check_domain(ctx: Check, tree: Tree) -> None:
     consumer_default = any(isinstance(n, ast.Attribute) and n.attr == "atoms" for n in walk_function(expr_prop.node)) and "Indexed" in unparse(expr_prop.node)
     key = f"{BUILDER}::amplitude-table-not-covering-domain"
     fn0, call0 = domain_sites[0]
+    if covering and not consumer_default:
+        # the completion step has to run on every formulate(): a guarded call site on every chain to it means that
+        # some configurations / reactions get no completion
+        verdicts = []
+        for cfn, cnode, _why in covering:
+            always, blocked = _completion_is_unconditional(tree, graph, cfn.qual)
+            if always:
+                verdicts = []
+                break
+            verdicts.append((cfn, blocked))
+        for cfn, blocked in verdicts[:1]:
+            if not blocked:
+                raise AnalysisError(f"R-DOMAIN: no call chain from formulate to the completion step {cfn.qual} was read")
+            gfn, gcall, guards = blocked[0]
+            DOMAIN_MARK["callee"] = COLLECT
+            from_domain = [g for g in guards if derives_from_domain(tree, gfn, g)]
+            text = "; ".join(unparse(g)[:70] for g in guards)
+            if len(from_domain) == len(guards):
+                raise AnalysisError(f"R-DOMAIN cannot decide: the completion step `{unparse(gcall)[:60]}` in {gfn.qual} only runs under `{text}`, which is computed from the projection pools - "
+                                    "whether the guard admits every reaction with a missing amplitude is not a structural fact")
+            ctx.violation("R-DOMAIN", f"{BUILDER}::completion-step-guarded", tree.loc(gcall),
+                          f"{gfn.qual}: the step that defines the amplitudes without a transition (`{unparse(gcall)[:60]}`) only runs under `{text}`, which does not derive from the summation domain",
+                          {"why": "whenever the guard is false the intensity keeps amplitude symbols that nothing defines"})
     if covering or consumer_default:
         ctx.ok("R-DOMAIN", tree.loc(call0), f"the amplitude table covers the domain of `{unparse(call0)[:60]}`: " + ("completion store present" if covering else "HelicityModel.expression defaults leftover Indexed atoms"))
     elif unread:
